@@ -59,7 +59,7 @@ def gen_members(rng, long_chain=False):
         ms.append(("dir/", "D", b""))
     nl = rng.randint(0, 4)
     targets = ["dir", "dir/file.txt", "a.txt", "docs", "sub", "../a.txt", "/dir/sub", "/docs/readme", "nowhere", "l1", "l2", "l1/file.txt",
-               "l2/sub/deep.txt", "./dir/./sub", "dir/../docs", "../../etc/passwd", "/", "l3"]
+               "l2/sub/deep.txt", "./dir/./sub", "dir/../docs", "../../etc/passwd", "/", "l3", ""]
     for i in range(nl):
         loc = rng.choice(["l1", "l2", "l3", "dir/l1", "docs/l2", "newdir/l1"])
         t = rng.choice(targets)
@@ -128,6 +128,8 @@ def extract(tree, base, members):
             os.makedirs(p, exist_ok=True)
         elif kind == "L":
             t = data.decode()
+            if t == "":
+                continue        # a link to nothing cannot be created on disk: it is absent, as a dangling link is unservable
             if t.startswith("/"):
                 # an absolute link inside an archive is relative to the archive root
                 rel = os.path.relpath(tree.path(base + t).decode(), os.path.dirname(p).decode())
